@@ -128,7 +128,7 @@ impl<V: JwsVerifier> SdJwtCredentialValidator<V> {
     let obj = value.as_object().ok_or(JwtValidationError::JwsDecodingError(
       identity_verification::jose::error::Error::InvalidClaim("sd-jwt claims could not be deserialized"),
     ))?;
-    let decoded: String = Value::Object(self.1.decode(obj, disclosures).map_err(|e| {
+    let mut decoded: Value = Value::Object(self.1.decode(obj, disclosures).map_err(|e| {
       // The text of `e` embeds the offending disclosure or digest, i.e. data of arbitrary size chosen by the presenter:
       // it must not be turned into a `&'static str` by leaking it. Report the kind of failure instead.
       use sd_jwt_payload::Error as SdError;
@@ -142,8 +142,10 @@ impl<V: JwsVerifier> SdJwtCredentialValidator<V> {
         _ => "sd-jwt claims decoding failed",
       };
       JwtValidationError::JwsDecodingError(identity_verification::jose::error::Error::InvalidClaim(err))
-    })?)
-    .to_string();
+    })?);
+    // The decoder leaves the digests in place where nothing of an object or of an array was disclosed.
+    remove_undisclosed_digests(&mut decoded);
+    let decoded: String = decoded.to_string();
 
     let claims = CredentialJwtClaims::from_json(&decoded).map_err(|err| {
       JwtValidationError::CredentialStructure(crate::Error::JwtClaimsSetDeserializationError(err.into()))
@@ -305,5 +307,24 @@ impl<V: JwsVerifier> SdJwtCredentialValidator<V> {
     }
 
     Ok(kb_jwt_claims)
+  }
+}
+
+/// Removes the digests of claims that were not disclosed: every `_sd` member and every `{"...": <digest>}` array
+/// element (both names are reserved by the SD-JWT format). The reconstructed claims must not contain them, see
+/// [section 6.2 of the SD-JWT draft](https://www.ietf.org/archive/id/draft-ietf-oauth-selective-disclosure-jwt-07.html#section-6.2).
+fn remove_undisclosed_digests(value: &mut Value) {
+  match value {
+    Value::Object(object) => {
+      object.remove("_sd");
+      object.values_mut().for_each(remove_undisclosed_digests);
+    }
+    Value::Array(array) => {
+      array.retain(|element| {
+        !matches!(element, Value::Object(object) if object.len() == 1 && object.get("...").is_some_and(Value::is_string))
+      });
+      array.iter_mut().for_each(remove_undisclosed_digests);
+    }
+    _ => {}
   }
 }
